@@ -20,7 +20,7 @@ Count(s) == IF Len(s) = 1 THEN s[1] ELSE s[1] * s[2] * s[3]
 ProbGrid == << <<0, 1>>, <<1, 1000000>>, <<1, 4>>, <<1, 2>>, <<3, 4>>, <<999999, 1000000>>, <<1, 1>>, <<1, 1, -140>> >>
 \* grid for the regression objectives; 2^-26 next to 0 is a pair closer than the machine epsilon that is NOT equal
 \* (the "no slope at a == p" special cases of AE / RMSE must not swallow it)
-RealGrid == << <<-2, 1>>, <<-1, 4>>, <<0, 1>>, <<1, 67108864>>, <<1, 2>>, <<1, 1>>, <<3, 1>>, <<-3, 2>> >>
+RealGrid == << <<-2, 1>>, <<-1, 4>>, <<0, 1>>, <<1, 67108864>>, <<1, 2>>, <<1, 1>>, <<3, 1>>, <<0, -1>> >>   \* <<0, -1>> is -0.0: equal to +0.0
 GridOf(obj) == IF obj \in Probabilistic THEN ProbGrid ELSE RealGrid
 GridLen == 8
 
